@@ -156,9 +156,9 @@ def streams(prop, tier):
     if prop == 'C08':
         if q: return [Stream('C08hist', 180, extra=['2']), Stream('C08rand', 12, extra=['90'])]
         if tier == 'search': return [Stream('C08hist', 1500, extra=['2']), Stream('C08rand', 100, extra=['150'])]
-        return [Stream('C08hist', 1800, extra=['3']), Stream('C08rand', 70, extra=['250']), Stream('C08rand', 40, release=True, extra=['250']),
+        return [Stream('C08hist', 1200, extra=['3']), Stream('C08rand', 70, extra=['250']), Stream('C08rand', 40, release=True, extra=['250']),
                 # the f32 build: correspondence only (the C08 oracle does not judge f32 cases)
-                Stream('C08hist', 400, f32=True, extra=['2']), Stream('C08rand', 30, f32=True, extra=['120'])]
+                Stream('C08hist', 200, f32=True, extra=['2']), Stream('C08rand', 30, f32=True, extra=['120'])]
     if prop == 'C09':
         if q: return [Stream('C09mesh', 132), Stream('C09mesh', 64, release=True), Stream('C09refine', 40, extra=['120', '40', '2.0']), Stream('C09refine', 24, release=True, extra=['120', '40', '2.0'])]
         if tier == 'search': return [Stream('C09mesh', 400), Stream('C09refine', 150, extra=['0', '2000', '3.0'])]
